@@ -187,3 +187,34 @@ def run_many(sc, emu, jobs, parallel=8, timeout=900):
         return run_online(sc, emu, j[0], j[1], j[2], timeout=timeout, argv=j[3] if len(j) > 3 else ("-t",))
     with cf.ThreadPoolExecutor(max_workers=parallel) as ex:
         return list(ex.map(one, jobs))
+
+
+def stg_trace(run):
+    """The run as Stg.tla sees it: scenario, one line per uplink message (projected by Amf!Abs inside TLC), exit or hang."""
+    v, scn = run["verdict"], run["scn"]
+    lines = [{"ev": "scenario", "counts": scn["cfg"]["counts"], "fault": {"kind": scn["fault"]["kind"], "at": scn["fault"]["at"]}}]
+    for n in v["notes"]:
+        lines.append({"ev": "ul", "k": n["k"], "t": n["note"], "u": n["u"], "cnt": n["cnt"], "nout": n["nout"], "bad": n["bad"]})
+    res = v["result"]
+    if res.get("kind") == "exit":
+        lines.append({"ev": "exit", "code": res["code"], "banner": bool(res.get("banner")), "reports": v.get("reportsAbs", [])})
+    else:
+        lines.append({"ev": "hang"})
+    return lines
+
+
+def validate_stg(sc, runs, parallel=None):
+    """Trace validation of every run against the abstract system specification (TraceStg.tla). Returns [(run, TlcResult)]."""
+    def one(r):
+        p = os.path.join(r["dir"], "stg-trace.ndjson")
+        with open(p, "w") as f:
+            f.write("\n".join(json.dumps(x) for x in stg_trace(r)) + "\n")
+        c = r["scn"]["cfg"]["counts"]
+        d = sc.specdir()
+        cfg = vlib.cfg_text({"TracePath": p, "MaxCnt": max([3] + list(c.values()))}, init="TraceInit", nxt="TraceNext", post="Accepted",
+                            extra='CONSTANT Faults = {"none", "close", "garbage"}\nCONSTRAINT HighWater')
+        t = vlib.run_tlc(d, "TraceStg", cfg, timeout=600, workers=1, heap="2g")
+        shutil.rmtree(d, ignore_errors=True)
+        return (r, t)
+    with cf.ThreadPoolExecutor(max_workers=parallel or vlib.NCPU) as ex:
+        return list(ex.map(one, runs))
